@@ -192,7 +192,13 @@ def cases(rng, tier):
              ("vec![(1, 2, 3)]", "[(_, _), ..]", False), ("vec![(1, 2, 3)]", "[(_, _, _)]", True), ("vec![(1, 2, 3)]", "#((_, _))", False),
              ("vec![(1, 2, 3)]", "#((_, _, _))", True), ("Some(5)", "Some((_, _))", False), ("(((1, 2), 3), 4)", "(((_, _, _), _), _)", False),
              ("(((1, 2), 3), 4)", "(((_, _), _), _)", True), ("Ok::<(i32, i32), String>((1, 2))", "Ok((_, _, _))", False),
-             ("Ok::<(i32, i32), String>((1, 2))", "Ok((_, _))", True)]
+             ("Ok::<(i32, i32), String>((1, 2))", "Ok((_, _))", True),
+             # `..` written as an ELEMENT of a parenthesised pattern that lists fewer positions than the declaration has: in a slice `..`
+             # stands for the rest, in a tuple / tuple struct / tuple variant pattern it must not (wrong arity is rejected, never a partial match)
+             ("(1, 2, 3)", "(1, ..)", False), ("(1, 2, 3)", "(.., 3)", False), ("(1, 2, 3, 4)", "(1, .., 4)", False), ("E::P3(1, 2, 3)", "E::P3(1, ..)", False),
+             ("E::P3(1, 2, 3)", "E::P3(.., 3)", False), ("E::P3(1, 2, 3)", "E::P3(0: 1, 1: ..)", False), ("TS2(1, 2)", "TS2(..)", False),
+             ("Some(E::P3(1, 2, 3))", "Some(E::P3(.., 3))", False), ("vec![(1, 2, 3)]", "[(1, ..)]", False),
+             ("Outer { inner: E::P2(1, 2), n: 1 }", "Outer { inner: E::P2(..), .. }", False), ("((1, 2, 3), 9)", "((1, ..), 9)", False)]
     for v, p, ok in arity:
         out.append(("arity: %s against %s" % (p, v), program(v, p), ok, "arity"))
     return out
